@@ -169,7 +169,9 @@ class PyroInvoke(Contract):
     def common(self, E, old, st, a):
         conn = self._used_conn(old, st, a)
         snd = sends_on(st, conn) if conn is not None else []
-        post = [("at most one request message is sent per call", z3.BoolVal(len(snd) <= 1))]
+        # (a nested _pyroInvoke - the call re-issued behind the caller's back - is another request: its contract promises up to one more send)
+        nested = [e for e in st.events if e[0] == "call" and e[1] == self.name]
+        post = [("at most one request message is sent per call", z3.BoolVal(len(snd) + len(nested) <= 1))]
         newseq = (self.seq0 + 1) % 65536
         for data, outcome in snd:
             mobj, margs = message_of(st, data)
